@@ -197,8 +197,14 @@ def run_check(prop, tier, seed):
     for name, minimum in getattr(mod, 'MIN_COUNTERS', {}).items():
         if counters.get(name, 0) < minimum:
             inconclusive.append('deciding counter %s=%d < %d' % (name, counters.get(name, 0), minimum))
+    seen_why = set()
     for s, why in lost:
-        inconclusive.append('shard %d lost: %s' % (s, why))
+        short = why.strip()[-700:]
+        if short in seen_why:
+            inconclusive.append('shard %d lost: (same as above)' % s)
+        else:
+            seen_why.add(short)
+            inconclusive.append('shard %d lost: %s' % (s, short))
     if evaluations == 0:
         inconclusive.append('no evaluations')
 
